@@ -50,7 +50,8 @@ func isPrintableUTF8(s string) bool {
 }
 
 // layout renders a token list. Layouts: 0 single spaces, 1 minimal whitespace, 2 wide spaces,
-// 3 newlines and tabs, 4 a comment between every pair of tokens, 5 alternate quoting.
+// 3 newlines and tabs, 4 a comment between every pair of tokens, 5 alternate quoting, 6 comment + indented
+// line, 7 runs of comments and empty lines; 6 and 7 also surround the whole text with blanks and comments.
 func layout(toks []tok, style int) string {
 	var sb strings.Builder
 	for i, t := range toks {
@@ -67,6 +68,10 @@ func layout(toks []tok, style int) string {
 				sb.WriteString("\n\t")
 			case 4:
 				sb.WriteString(" # c" + strconv.Itoa(i) + " ) \" `\n")
+			case 6: // a comment, then a line that starts with blanks
+				sb.WriteString("# c\n \t ")
+			case 7: // several comments and empty lines in a row, blanks before each
+				sb.WriteString("\t#\n  # second ( [ {\n\n\t#third\r\n")
 			default:
 				sb.WriteByte(' ')
 			}
@@ -77,6 +82,12 @@ func layout(toks []tok, style int) string {
 		default:
 			sb.WriteString(t.text)
 		}
+	}
+	switch style {
+	case 6:
+		return " \n# leading\n  " + sb.String() + "  # trailing"
+	case 7:
+		return "#\n#\n" + sb.String() + "\n\n#\n"
 	}
 	return sb.String()
 }
